@@ -18,7 +18,10 @@ def run(rep: Report, tier: str, only=None) -> None:
 			if not c['prefix'] and c['n'] == 0:
 				continue
 			jobs.append(Job('O1-2.buffer', H, 'buffer_law', c, t, 'S', f'source buffer 1..{c["n"]} over {classes!r} (lexer symbolic, parser per realised token list)', ('accepted', 'rejected', 'compared')))
-	for tmpl in range(11):
+	for tmpl in range(6):
+		jobs.append(Job('O3.atom_slots', H, 'atoms_law', {'template': tmpl}, t, 'F', 'atom template with two slots over 26 atom spellings (names next to keywords, 0 / decimal forms, both string quotes, True/False/None and their look-alikes)', ('compared',)))
+	jobs.append(Job('O3.rejected_ops', H, 'reject_law', {'template': -1}, t, 'F', '18 operator spellings absent from py_gram.lark in 4 sentence shapes: Errors.Syntax naming a token and an existing line', ('rejected',)))
+	for tmpl in range(13):
 		jobs.append(Job('O3.expr_slots', H, 'template_law', {'template': tmpl}, t, 'F', 'expression template with two operator slots over all 17 binary operator spellings of py_gram.lark (+ - * / % < > == <= >= != in, not in, is, is not, and, or)', ('compared',)))
 	for tmpl in range(6):
 		jobs.append(Job('O3.stmt_slots', H, 'template_law', {'template': tmpl, 'stmt': True, 'nsimple': 10 if thorough else 6}, t, 'F', 'statement template (if/elif/else, nested if, while, for, def with typed/default parameters) with an operator slot (17) and two simple-statement slots (6 x 6 quick, 10 x 10 thorough)', ('compared',)))
